@@ -531,7 +531,7 @@ class Walker:
         elif cls == 6:
             p = self._compound(d, t, where, pad_ok)
         elif cls == 7:
-            if bits > 1:
+            if bits > 1 and not ((bits & 0xF) < 5 and bits < 256):     # 2-4: the revised references of library 1.12 (bits 4-7: their version)
                 raise SpecError("%s: reference type %d" % (where, bits & 0xF))
         elif cls == 8:
             p = self._enum(d, t, where, pad_ok, top)
